@@ -35,6 +35,9 @@ func c17(c *Ctx) {
 	c17fold(c)
 	c17mapEntries(c)
 	c17mapFieldInfo(c)
+	// R15 (round 6): what a document spells is what is parsed — every kind is parsed from the supplied string itself (the C08.R4
+	// kind tables, run here because a "tolerant" trim changes string elements that encoding/json keeps verbatim)
+	c08widths(c, "core/mapping", "C17.R15")
 	if n := c.freshPerIteration("C17.R5", "core/mapping"); n < 2 {
 		c.R.Undecided("C17.R5", "core/mapping#fresh", "per-iteration stores of reflect.New targets are recognised", fmt.Sprintf("%d found", n))
 	}
